@@ -32,7 +32,7 @@ func init() {
 		Mutant{Name: "c11-addone-nomask", Prop: "C11", File: cnt, Old: "\tcounter.count++\n\tcounter.maskTo24Bits()\n", New: "\tcounter.count++\n",
 			Expect: "security.(*Count).AddOne", Why: "no wrap at 2^24"},
 		Mutant{Name: "c11-addone-sqn-only", Prop: "C11", File: cnt, Old: "\tcounter.count++\n", New: "\tcounter.count = (counter.count & 0xffffff00) | uint32(uint8(counter.count)+1)\n",
-			Expect: "cnt.transfer / security.(*Count).AddOne", Why: "sequence number rolls over without carrying into the overflow part"},
+			Expect: "security.(*Count).AddOne", Why: "sequence number rolls over without carrying into the overflow part"},
 		Mutant{Name: "c11-keep-get-nomask", Prop: "C11", File: cnt, Old: "\tcounter.maskTo24Bits()\n\treturn counter.count\n", New: "\treturn counter.count\n", Keep: true,
 			Why: "under the invariant the mask in Get is the identity"},
 		Mutant{Name: "c11-keep-sqn-trunc", Prop: "C11", File: cnt, Old: "return uint8(counter.count & 0x000000ff)", New: "return uint8(counter.count)", Keep: true, Why: "same bits"},
